@@ -192,7 +192,8 @@ def copy (fixed : Bool) (W : World) (r : Nat) : World :=
                          else W.iface (x - W.nsym))
                       else W.iface x
     freshIface := fun x => if isNew own W.nsym x then W.freshIface (x - W.nsym) else W.freshIface x
-    access := fun i => if W.nif ≤ i then W.access (i - W.nif) else W.access i
+    access := fun i => if decide (W.nif ≤ i) && own.any (fun s => W.freshIface s && W.iface s == i - W.nif)
+                       then W.access (i - W.nif) else W.access i
     nsym := W.nsym + W.nsym
     nif := W.nif + W.nif
     nnode := W.nnode + W.nnode
